@@ -40,11 +40,12 @@ ASSUMPTIONS = [
     "UT1-UTC 'as tabulated for that day': within 70 s of a UTC midnight the value of either neighbouring day is accepted (the date's own scale and UTC disagree on the day there)",
     "instants within 2 minutes (+ the scale offset) of a leap second are not generated (documented: leap seconds are not handled)",
     "a row torn in the middle of a field is not judged (the file is then malformed in a way a fixed-column reader cannot notice)",
+    "UT1 round trip: each of the two conversions may take the UT1-UTC of a neighbouring day, so the bound is twice the largest daily change of the shipped tables (4.03 ms) + rounding",
 ]
 SAMPLED_ONLY = [
     "(d+t)-d=t, associativity, ordering/equality/hash consistency and the range laws have no fault or schedule in them: they are evaluated as per-step invariants on the dates the runs create (sampled, not decided)",
 ]
-TOLERANCES = {"ut1_tdb_instant_s": 1e-6, "round_trip_s": 2e-6, "ut1_round_trip_s": 5e-3, "tdb_series_s": 2e-6}
+TOLERANCES = {"ut1_tdb_instant_s": 1e-6, "round_trip_s": 2e-6, "ut1_round_trip_s": 8.5e-3, "tdb_series_s": 2e-6}
 
 SCALES = ["UTC", "TAI", "TT", "GPS", "UT1", "TDB"]
 EXACT = ["UTC", "TAI", "TT", "GPS"]
